@@ -2,14 +2,32 @@
 //   csvm <bias> <shrink> <C> <eps> <maxit> <n> <d> x.. y..            (integer points, LINEAR kernel; compared
 //        bit-for-bit with the Lean trainer model, lean/Driver/C07.lean)
 //   cfg  <kernel lin|rbf> <gamma> <bias> <shrink> <precompute> <cache> <C> <eps> <n> <d> x.. y..   (oracle only)
+//   csvm2 <bias> <shrink> <precompute> <cache> <weighted> <Cn> <Cp> <eps> <maxit> <warmit> <warmfac> <n> <d> x.. y.. w..
+//        CSvmTrainer: one C (Cn == Cp) or class-specific C, plain or weighted data (weighted = 0: all w must be 1), cold
+//        (warmit = 0) or warm start (a first training with C*warmfac and at most warmit iterations fills the model)
+//   esvr  <shrink> <C> <tube> <eps> <maxit> <n> <d> x.. y..             EpsilonSvmTrainer
+//   ocsvm <shrink> <nu> <eps> <maxit> <n> <d> x..                       OneClassSvmTrainer (coefficients, offset, stop, its)
+//        (these three: integer points, LINEAR kernel, compared bit-for-bit with the Lean trainer model as well)
+//   trn  <kind c|e|o> <kernel lin|rbf> <gamma> <bias> <shrink> <precompute> <cache> <eps> <maxit> <warmit> <warmfac>
+//        <weighted> <p1> <p2> <n> <d> x.. y.. w..      (oracle only; see trainGeneral below)
+//        kind c: CSvmTrainer with class-specific C (p1 = C of label 0, p2 = C of label 1; the one-C constructor is used
+//                when p1 == p2), optionally on a WeightedLabeledData (per-example C = C_class * w_i), optionally warm
+//                started (warmit > 0: a first training with C*warmfac and at most warmit iterations fills the model,
+//                the second training starts from its coefficients)
+//        kind e: EpsilonSvmTrainer (p1 = C, p2 = tube epsilon, real labels y)
+//        kind o: OneClassSvmTrainer (p1 = nu)
 // Output: acc=<QpAccuracyReached?> it=<iterations> alpha=[..] b=<offset>   + " !oracle <tag>" when the property
 // itself fails: the oracle recomputes K with plain loops and checks box, equality constraint, KKT(eps),
 // bias interval and the reported objective -- exactly the text of property C07.
 #include <shark/Algorithms/Trainers/CSvmTrainer.h>
+#include <shark/Algorithms/Trainers/EpsilonSvmTrainer.h>
+#include <shark/Algorithms/Trainers/OneClassSvmTrainer.h>
 #include <shark/Models/Kernels/LinearKernel.h>
 #include <shark/Models/Kernels/GaussianRbfKernel.h>
 #include "common.hpp"
 #include <cmath>
+#include <memory>
+#include <iomanip>
 using namespace shark;
 
 static std::string tok(double x){
@@ -111,6 +129,148 @@ static std::string oracle(std::string const& kern, double gamma, bool bias, doub
 	return os.str();
 }
 
+
+// ------------------------------------------------------------------------------------------------ general trainers
+struct GenCfg{
+	std::string kind, kern; double gamma; bool bias, shrink, pre; std::size_t cache; double eps; unsigned long long maxit, warmit;
+	double warmfac; bool weighted; double p1, p2;
+	std::vector<RealVector> xs; std::vector<double> ys; std::vector<double> ws;
+};
+
+template<class Trainer> static void configure(Trainer& t, GenCfg const& c, unsigned long long maxit){
+	t.sparsify() = false;
+	t.shrinking() = c.shrink;
+	t.precomputeKernel() = c.pre;
+	if(c.cache) t.setCacheSize(c.cache);
+	t.stoppingCondition().minAccuracy = c.eps;
+	t.stoppingCondition().maxIterations = maxit;
+}
+
+static Result trainGeneral(GenCfg const& c){
+	LinearKernel<RealVector> lin; GaussianRbfKernel<RealVector> rbf(c.gamma);
+	AbstractKernelFunction<RealVector>* k = c.kern == "lin" ? (AbstractKernelFunction<RealVector>*)&lin : (AbstractKernelFunction<RealVector>*)&rbf;
+	std::size_t n = c.xs.size();
+	Result r;
+	if(c.kind == "c"){
+		std::vector<unsigned int> labels(n);
+		for(std::size_t i = 0; i != n; ++i) labels[i] = c.ys[i] > 0 ? 1 : 0;
+		ClassificationDataset data = createLabeledDataFromRange(c.xs, labels);
+		WeightedLabeledData<RealVector, unsigned int> wdata(data, 1.0);
+		if(c.weighted){
+			std::size_t i = 0;
+			for(auto& w : wdata.weights().elements()) w = c.ws[i++];
+		}
+		KernelClassifier<RealVector> svm;
+		for(int phase = (c.warmit ? 0 : 1); phase != 2; ++phase){
+			double f = phase == 0 ? c.warmfac : 1.0;
+			std::unique_ptr<CSvmTrainer<RealVector> > t(c.p1 == c.p2
+				? new CSvmTrainer<RealVector>(k, c.p1 * f, c.bias)
+				: new CSvmTrainer<RealVector>(k, c.p1 * f, c.p2 * f, c.bias));
+			configure(*t, c, phase == 0 ? c.warmit : c.maxit);
+			if(c.weighted) t->train(svm, wdata); else t->train(svm, data);
+			r.value = t->solutionProperties().value; r.accuracy = t->solutionProperties().accuracy;
+			r.acc = t->solutionProperties().type == QpAccuracyReached; r.it = t->solutionProperties().iterations;
+		}
+		for(std::size_t i = 0; i != n; ++i) r.alpha.push_back(svm.decisionFunction().alpha()(i, 0));
+		r.b = c.bias ? svm.decisionFunction().offset()(0) : 0.0;
+	}else if(c.kind == "e"){
+		std::vector<RealVector> labels(n, RealVector(1));
+		for(std::size_t i = 0; i != n; ++i) labels[i](0) = c.ys[i];
+		RegressionDataset data = createLabeledDataFromRange(c.xs, labels);
+		EpsilonSvmTrainer<RealVector> t(k, c.p1, c.p2);
+		configure(t, c, c.maxit);
+		KernelExpansion<RealVector> svm;
+		t.train(svm, data);
+		for(std::size_t i = 0; i != n; ++i) r.alpha.push_back(svm.alpha()(i, 0));
+		r.b = svm.offset()(0);
+		r.value = t.solutionProperties().value; r.accuracy = t.solutionProperties().accuracy;
+		r.acc = t.solutionProperties().type == QpAccuracyReached; r.it = t.solutionProperties().iterations;
+	}else{
+		UnlabeledData<RealVector> data = createDataFromRange(c.xs);
+		OneClassSvmTrainer<RealVector> t(k, c.p1);
+		configure(t, c, c.maxit);
+		KernelExpansion<RealVector> svm;
+		t.train(svm, data);
+		for(std::size_t i = 0; i != n; ++i) r.alpha.push_back(svm.alpha()(i, 0));
+		r.b = svm.offset()(0);
+		r.value = t.solutionProperties().value; r.accuracy = t.solutionProperties().accuracy;
+		r.acc = t.solutionProperties().type == QpAccuracyReached; r.it = t.solutionProperties().iterations;
+	}
+	return r;
+}
+
+// independent oracle for the general trainers: the dual problem is rebuilt from the configuration alone
+//   maximise lin.a - 1/2 a^T Q a,  L <= a <= U,  (sum a = target when an equality constraint exists)
+// for kind e the returned coefficients beta_i = a_i + a*_i are split canonically (a_i = max(beta_i,0), a*_i = min(beta_i,0)).
+static std::string oracleGeneral(GenCfg const& c, Result const& r, long double* objOut, long double* widthOut){
+	std::ostringstream os;
+	std::size_t n = c.xs.size();
+	std::vector<std::vector<long double> > K(n, std::vector<long double>(n));
+	for(std::size_t i = 0; i != n; ++i) for(std::size_t j = 0; j != n; ++j){
+		long double s = 0, d2 = 0;
+		for(std::size_t k = 0; k != c.xs[i].size(); ++k){ s += (long double)c.xs[i](k) * c.xs[j](k); long double d = (long double)c.xs[i](k) - c.xs[j](k); d2 += d*d; }
+		K[i][j] = (long double)(float)(c.kern == "lin" ? s : std::exp(-(long double)c.gamma * d2));
+	}
+	std::size_t m = c.kind == "e" ? 2 * n : n;
+	std::vector<long double> a(m), lin(m), L(m), U(m), g(m);
+	bool equality = true; long double target = 0;
+	if(c.kind == "c"){
+		equality = c.bias;
+		for(std::size_t i = 0; i != n; ++i){
+			bool pos = c.ys[i] > 0; long double w = c.weighted ? c.ws[i] : 1.0;
+			a[i] = r.alpha[i]; lin[i] = pos ? 1 : -1;
+			L[i] = pos ? 0 : -(long double)c.p1 * w; U[i] = pos ? (long double)c.p2 * w : 0;
+		}
+	}else if(c.kind == "e"){
+		for(std::size_t i = 0; i != n; ++i){
+			a[i] = std::max((long double)r.alpha[i], 0.0L); a[i+n] = std::min((long double)r.alpha[i], 0.0L);
+			lin[i] = (long double)c.ys[i] - c.p2; lin[i+n] = (long double)c.ys[i] + c.p2;
+			L[i] = 0; U[i] = c.p1; L[i+n] = -(long double)c.p1; U[i+n] = 0;
+		}
+	}else{
+		target = 1;
+		double upper = 1.0 / (c.p1 * n);
+		for(std::size_t i = 0; i != n; ++i){ a[i] = r.alpha[i]; lin[i] = 0; L[i] = 0; U[i] = upper; }
+	}
+	long double sum = 0, obj = 0, scale = 0, width = 0;
+	for(std::size_t i = 0; i != m; ++i){
+		if(a[i] < L[i] || a[i] > U[i]) os << " !oracle box@" << i;
+		sum += a[i]; width += U[i] - L[i];
+		g[i] = lin[i];
+		for(std::size_t j = 0; j != m; ++j) g[i] -= K[i % n][j % n] * a[j];
+	}
+	for(std::size_t i = 0; i != m; ++i){
+		obj += lin[i] * a[i]; scale += std::fabs(lin[i] * a[i]);
+		for(std::size_t j = 0; j != m; ++j){ obj -= 0.5L * a[i] * K[i % n][j % n] * a[j]; scale += std::fabs(a[i] * K[i % n][j % n] * a[j]); }
+	}
+	*objOut = obj; *widthOut = width;
+	long double tol = 1e-9L * (1 + scale);
+	if(equality && std::fabs(sum - target) > tol) os << " !oracle equality-constraint(" << (double)sum << ")";
+	if(r.acc){
+		if(equality){
+			long double up = -1e100L, down = 1e100L;
+			for(std::size_t i = 0; i != m; ++i){
+				if(a[i] < U[i]) up = std::max(up, g[i]);
+				if(a[i] > L[i]) down = std::min(down, g[i]);
+			}
+			if(up - down > c.eps + tol) os << " !oracle kkt(" << (double)(up - down) << ")";
+			for(std::size_t i = 0; i != m; ++i){
+				if(a[i] < U[i] && g[i] - r.b > c.eps + tol){ os << " !oracle bias-interval@" << i << "(" << (double)(g[i] - r.b) << ")"; break; }
+				if(a[i] > L[i] && r.b - g[i] > c.eps + tol){ os << " !oracle bias-interval@" << i << "(" << (double)(r.b - g[i]) << ")"; break; }
+			}
+		}else{
+			long double viol = 0;
+			for(std::size_t i = 0; i != m; ++i){
+				if(a[i] < U[i]) viol = std::max(viol, g[i]);
+				if(a[i] > L[i]) viol = std::max(viol, -g[i]);
+			}
+			if(viol > c.eps + tol) os << " !oracle kkt(" << (double)viol << ")";
+		}
+		if(std::fabs(obj - (long double)r.value) > tol) os << " !oracle objective-not-reproduced(" << std::setprecision(17) << r.value << " vs " << (double)obj << ")";
+	}
+	return os.str();
+}
+
 int main(){
 	std::string line;
 	while(std::getline(std::cin, line)){
@@ -123,6 +283,54 @@ int main(){
 		}else if(t[0] == "cfg" && t.size() >= 11){
 			kern = t[1]; gamma = untok(t[2]); bias = t[3] == "1"; shrink = t[4] == "1"; pre = t[5] == "1"; cache = std::stoul(t[6]);
 			C = untok(t[7]); eps = untok(t[8]); n = std::stoul(t[9]); d = std::stoul(t[10]); at = 11;
+		}else if((t[0] == "csvm2" && t.size() >= 14) || (t[0] == "esvr" && t.size() >= 8) || (t[0] == "ocsvm" && t.size() >= 7)){
+			// model-comparison ops for the widened trainers (linear kernel); no oracle suffix: the oracle runs on the `trn` cross
+			GenCfg c; c.kern = "lin"; c.gamma = 1; c.pre = false; c.cache = 0; c.warmit = 0; c.warmfac = 1; c.weighted = false; c.bias = true;
+			std::size_t p;
+			if(t[0] == "csvm2"){
+				c.kind = "c"; c.bias = t[1] == "1"; c.shrink = t[2] == "1"; c.pre = t[3] == "1"; c.cache = std::stoul(t[4]); c.weighted = t[5] == "1";
+				c.p1 = untok(t[6]); c.p2 = untok(t[7]); c.eps = untok(t[8]); c.maxit = std::stoull(t[9]); c.warmit = std::stoull(t[10]); c.warmfac = untok(t[11]);
+				n = std::stoul(t[12]); d = std::stoul(t[13]); p = 14;
+			}
+			else if(t[0] == "esvr"){ c.kind = "e"; c.shrink = t[1] == "1"; c.p1 = untok(t[2]); c.p2 = untok(t[3]); c.eps = untok(t[4]); c.maxit = std::stoull(t[5]); n = std::stoul(t[6]); d = std::stoul(t[7]); p = 8; }
+			else{ c.kind = "o"; c.shrink = t[1] == "1"; c.p1 = untok(t[2]); c.p2 = 0; c.eps = untok(t[3]); c.maxit = std::stoull(t[4]); n = std::stoul(t[5]); d = std::stoul(t[6]); p = 7; }
+			std::size_t extra = c.kind == "c" ? 2*n : (c.kind == "e" ? n : 0);
+			if(t.size() != p + n*d + extra){ std::cout << "bad-op\n"; continue; }
+			c.xs.assign(n, RealVector(d));
+			for(std::size_t i = 0; i != n; ++i) for(std::size_t k = 0; k != d; ++k) c.xs[i](k) = untok(t[p + i*d + k]);
+			for(std::size_t i = 0; i != n; ++i) c.ys.push_back(c.kind == "c" ? (t[p + n*d + i] == "1" ? 1.0 : 0.0) : (c.kind == "e" ? untok(t[p + n*d + i]) : 0.0));
+			for(std::size_t i = 0; i != n; ++i) c.ws.push_back(c.kind == "c" ? untok(t[p + n*d + n + i]) : 1.0);
+			std::ostringstream os;
+			try{
+				Result r = trainGeneral(c);
+				os << "acc=" << (r.acc ? 1 : 0) << " it=" << r.it << " alpha=[";
+				for(std::size_t i = 0; i != n; ++i){ if(i) os << ","; os << tok(r.alpha[i]); }
+				os << "] b=" << tok(r.b);
+			}catch(std::exception const& e){ os << "exception " << e.what(); }
+			std::cout << os.str() << "\n";
+			continue;
+		}else if(t[0] == "trn" && t.size() >= 17){
+			GenCfg c;
+			c.kind = t[1]; c.kern = t[2]; c.gamma = untok(t[3]); c.bias = t[4] == "1"; c.shrink = t[5] == "1"; c.pre = t[6] == "1";
+			c.cache = std::stoul(t[7]); c.eps = untok(t[8]); c.maxit = std::stoull(t[9]); c.warmit = std::stoull(t[10]);
+			c.warmfac = untok(t[11]); c.weighted = t[12] == "1"; c.p1 = untok(t[13]); c.p2 = untok(t[14]);
+			n = std::stoul(t[15]); d = std::stoul(t[16]);
+			if(t.size() != 17 + n*d + 2*n || (c.kind != "c" && c.kind != "e" && c.kind != "o")){ std::cout << "bad-op\n"; continue; }
+			c.xs.assign(n, RealVector(d));
+			for(std::size_t i = 0; i != n; ++i) for(std::size_t k = 0; k != d; ++k) c.xs[i](k) = untok(t[17 + i*d + k]);
+			for(std::size_t i = 0; i != n; ++i) c.ys.push_back(untok(t[17 + n*d + i]));
+			for(std::size_t i = 0; i != n; ++i) c.ws.push_back(untok(t[17 + n*d + n + i]));
+			std::ostringstream os;
+			try{
+				Result r = trainGeneral(c);
+				long double obj, width;
+				std::string o = oracleGeneral(c, r, &obj, &width);
+				os << "acc=" << (r.acc ? 1 : 0) << " it=" << r.it << " alpha=[";
+				for(std::size_t i = 0; i != n; ++i){ if(i) os << ","; os << tok(r.alpha[i]); }
+				os << "] b=" << tok(r.b) << " ;obj=" << tok((double)obj) << " ;width=" << tok((double)width) << o;
+			}catch(std::exception const& e){ os << "exception " << e.what(); }
+			std::cout << os.str() << "\n";
+			continue;
 		}else{ std::cout << "bad-op\n"; continue; }
 		if(t.size() != at + n*d + n){ std::cout << "bad-op\n"; continue; }
 		std::vector<RealVector> xs(n, RealVector(d)); std::vector<unsigned int> ys(n);
